@@ -37,6 +37,7 @@ REPO = os.environ.get('VERIF_REPO', '/repo')
 # R-conv: std conversion traits cannot be shadowed inside a Verus file (vstd attaches
 # trait-level contracts to them); the extracted text is renamed to same-shaped shim traits.
 RULES = {
+    'autofor': [],
     'conv': [
         (r'\.try_into\(\)', '.vtry_into()'),
         (r'\.into\(\)', '.vinto()'),
@@ -224,6 +225,7 @@ class Unit:
         closures = {}
         forloops = {}
         forusing = {}
+        loopends = {}
         for h, body in secs:
             if h.startswith('ret '):
                 ret = h[4:].strip()
@@ -238,6 +240,8 @@ class Unit:
                 forloops[int(fm.group(1))] = body
                 if fm.group(2):
                     forusing[int(fm.group(1))] = fm.group(2)
+            elif h.startswith('loopend '):
+                loopends[int(h[8:])] = body
             elif h.startswith('proof '):
                 proofs.append((h[6:].strip(), body))
             elif h.startswith('closure '):
@@ -265,6 +269,7 @@ class Unit:
         body = s.text[f['open']:f['close'] + 1]
         # ---- insertions into the body are computed on offsets relative to body start
         ins = []   # (offset_in_body, kind, payload_lines)
+        repl = []  # (start, end, text)
         b0 = f['open']
         lps = s.loops_in(f['open'] + 1, f['close'])
         for k, lines in loops.items():
@@ -275,8 +280,28 @@ class Unit:
             if k not in loops and lps[k]['kind'] in ('for', 'while', 'loop'):
                 # a loop without invariant is legal for Verus only in trivial cases; leave as is
                 pass
+        # R-for (automatic): a `for` loop the contract does not annotate is desugared the same
+        # way over the generic shim `vx_iter(..)`, without invariant: whatever it modifies is
+        # havocked, so a loop the contract does not anticipate makes the postcondition fail
+        # instead of making the unit unreadable for the verifier
+        auto_for = False
+        if 'autofor' in self.rules:
+            for k, lp in enumerate(lps):
+                if lp['kind'] == 'for' and k not in loops and k not in forloops:
+                    hdr = s.text[lp['kw'] + 3:lp['open']]
+                    hm = s.masked[lp['kw'] + 3:lp['open']]
+                    mi = re.search(r'\bin\b', hm)
+                    pat, expr = hdr[:mi.start()].strip(), self.apply_rules(hdr[mi.end():].strip(), where)
+                    new_ = 'let mut vx_it%d = vx_iter(%s);\nloop\n{ match vx_it%d.next() { None => { break; } Some(%s) => {' % (k, expr, k, pat)
+                    repl.append((lp['kw'] - b0, lp['open'] + 1 - b0, new_))
+                    repl.append((lp['close'] - b0, lp['close'] - b0, ' } } '))
+                    self.rewrites.append(('R-for (auto) desugar unannotated for-loop %d over %s' % (k, expr), where, 1))
+                    auto_for = True
+        for k, lines in loopends.items():
+            if k >= len(lps):
+                raise ExtractError('%s: fn %s has %d loops, loopend refers to loop %d' % (where, name, len(lps), k))
+            ins.append((lps[k]['close'] - b0, 'proof', lines))
         cls = s.closures_in(f['open'] + 1, f['close'])
-        repl = []  # (start, end, text)
         # R-for: the language's own desugaring of `for PAT in EXPR { B }`, giving Verus a
         # place for the invariant when EXPR is a shim iterator
         for k, lines in forloops.items():
@@ -348,6 +373,8 @@ class Unit:
         joint = self.apply_subs(sig_pending + SEP + rendered, subs, where)
         sig_new, rendered = joint.split(SEP)
         # ---- emit signature, spec header, then the body
+        if auto_for:
+            self.lines.append(Line('#[verifier::exec_allows_no_decreases_clause]', ('tmpl', base, tline), fnkey))
         self.emit_repo(s, f['start'], f['open'], text=sig_new.rstrip('\n'), fn=fnkey)
         for ln, l in spec:
             lab = re.search(r'//:\s*(\S+)(?:\s+(\S+))?\s*$', l)
